@@ -36,6 +36,9 @@ type trFunc struct {
 	state     []string // "name:LeanType": package-level variables the function reads/writes (threaded as parameters and
 	// returned after the results), or "recv" for a receiver the method mutates (returned after the results)
 	maps []string // identifiers that are Go maps (indexing is a lookup with the zero value as default)
+	extract   string   // when set: translate only the statement carrying this label (a loop of the function), as a function of its
+	// own whose parameters are `exParams` ("name:LeanType") - the variables of the enclosing function it reads
+	exParams  []string
 	loopTypes []string // when set: the k-th `for cond {}` loop's condition and body become top-level definitions
 	// `<name>_cond<k>` / `<name>_body<k>` over the given Lean state type (so that the tie can state facts about them)
 	fuel string   // Lean term (over the parameters) bounding the iterations of the function's `for cond {}` loops; the special
@@ -44,42 +47,43 @@ type trFunc struct {
 }
 
 var trList = []trFunc{
-	{"CodeMatcher", "matcher", "Matcher.Match", "Matcher.Match", true, false, nil, nil, nil, ""},
-	{"CodeMatcher", "matcher", "Matcher.PreMatch", "Matcher.PreMatch", true, false, nil, nil, nil, ""},
-	{"CodeMatcher", "matcher", "Matcher.MatchRegexAndExpand", "Matcher.MatchRegexAndExpand", true, false, nil, nil, nil, ""},
-	{"CodeAgg", "aggregator", "Aggregator.AddMaybe", "Aggregator.AddMaybe", false, false, nil, nil, nil, ""},
-	{"CodeFilters", "destination", "Destination.Match", "Destination.Match", true, false, nil, nil, nil, ""},
-	{"CodeFilters", "route", "baseRoute.Match", "baseRoute.Match", true, false, nil, nil, nil, ""},
-	{"CodeRoute", "route", "metricName", "metricName", true, false, nil, nil, nil, ""},
-	{"CodeRoute", "route", "SendAllMatch.Dispatch", "SendAllMatch.Dispatch", false, false, nil, nil, nil, ""},
-	{"CodeRoute", "route", "SendFirstMatch.Dispatch", "SendFirstMatch.Dispatch", false, false, nil, nil, nil, ""},
-	{"CodeHasher", "route", "ConsistentHasher.GetDestinationIndex", "ConsistentHasher.GetDestinationIndex", true, true, nil, nil, nil, ""},
-	{"CodeHasher", "route", "ConsistentHashing.Dispatch", "ConsistentHashing.Dispatch", false, true, nil, nil, nil, ""},
-	{"CodeTable", "table", "Table.Dispatch", "Table.Dispatch", false, true, nil, nil, nil, ""},
-	{"CodeTable", "table", "Table.DispatchAggregate", "Table.DispatchAggregate", false, false, nil, nil, nil, ""},
-	{"CodeOrdered", "validate", "Ordered", "validate_Ordered", true, false, []string{"m:MapII", "h:Hasher64"}, []string{"m"}, nil, ""},
-	{"CodeKeepSafe", "destination", "keepSafe.Add", "keepSafe.Add", true, false, []string{"recv"}, nil, nil, ""},
-	{"CodeKeepSafe", "destination", "keepSafe.GetAll", "keepSafe.GetAll", true, false, []string{"recv"}, nil, nil, ""},
-	{"CodeRewriter", "rewriter", "RW.Do", "RW.Do", true, false, nil, nil, nil, ""},
-	{"CodeRewriter", "rewriter", "New", "rewriter_New", true, true, nil, nil, nil, ""},
-	{"CodeTableOps", "table", "Table.AddRoute", "Table.AddRoute", true, false, []string{"recv"}, nil, nil, ""},
-	{"CodeTableOps", "table", "Table.AddBlacklist", "Table.AddBlacklist", true, false, []string{"recv"}, nil, nil, ""},
-	{"CodeTableOps", "table", "Table.AddAggregator", "Table.AddAggregator", true, false, []string{"recv"}, nil, nil, ""},
-	{"CodeTableOps", "table", "Table.AddRewriter", "Table.AddRewriter", true, false, []string{"recv"}, nil, nil, ""},
-	{"CodeTableOps", "table", "Table.DelBlacklist", "Table.DelBlacklist", true, false, []string{"recv"}, nil, nil, ""},
-	{"CodeTableOps", "table", "Table.DelRewriter", "Table.DelRewriter", true, false, []string{"recv"}, nil, nil, ""},
-	{"CodeTableOps", "table", "Table.DelAggregator", "Table.DelAggregator", false, false, []string{"recv"}, nil, nil, ""},
-	{"CodeTableOps", "table", "Table.DelRoute", "Table.DelRoute", false, false, []string{"recv"}, nil, nil, ""},
-	{"CodeGuards", "destination", "New", "destination_New_guards", true, false, nil, nil, nil, "guards"},
-	{"CodeGuards", "route", "NewGrafanaNet", "NewGrafanaNet_guards", true, false, nil, nil, nil, "guards"},
-	{"CodeCfg", "cfg", "InitAggregation", "InitAggregation", false, true, nil, nil, nil, ""},
-	{"CodeCfg", "cfg", "InitBlacklist", "InitBlacklist", false, true, nil, nil, nil, ""},
-	{"CodeCfg", "cfg", "InitRewrite", "InitRewrite", false, true, nil, nil, nil, ""},
-	{"CodeReadAgg", "imperatives", "readAddAgg", "readAddAgg", false, true, []string{"param:s"}, nil, []string{"Crng.CodeSpecAgg.T1", "Crng.CodeSpecAgg.T2"}, "(s.toks.length + 2)"},
-	{"CodeReadSmall", "imperatives", "readAddBlack", "readAddBlack", false, true, []string{"param:s"}, nil, nil, ""},
-	{"CodeReadSmall", "imperatives", "readAddRewriter", "readAddRewriter", false, true, []string{"param:s"}, nil, nil, ""},
-	{"CodeReadSmall", "imperatives", "readRouteOpts", "readRouteOpts", true, false, []string{"param:s"}, nil, []string{"Crng.CodeSpecAgg.T3"}, "(s.toks.length + 2)"},
-	{"CodeReadDest", "imperatives", "readDestination", "readDestination", true, true, []string{"param:s"}, nil, nil, "(s.toks.length + 2)"},
+	{"CodeMatcher", "matcher", "Matcher.Match", "Matcher.Match", true, false, nil, nil, "", nil, nil, ""},
+	{"CodeMatcher", "matcher", "Matcher.PreMatch", "Matcher.PreMatch", true, false, nil, nil, "", nil, nil, ""},
+	{"CodeMatcher", "matcher", "Matcher.MatchRegexAndExpand", "Matcher.MatchRegexAndExpand", true, false, nil, nil, "", nil, nil, ""},
+	{"CodeAgg", "aggregator", "Aggregator.AddMaybe", "Aggregator.AddMaybe", false, false, nil, nil, "", nil, nil, ""},
+	{"CodeFilters", "destination", "Destination.Match", "Destination.Match", true, false, nil, nil, "", nil, nil, ""},
+	{"CodeFilters", "route", "baseRoute.Match", "baseRoute.Match", true, false, nil, nil, "", nil, nil, ""},
+	{"CodeRoute", "route", "metricName", "metricName", true, false, nil, nil, "", nil, nil, ""},
+	{"CodeRoute", "route", "SendAllMatch.Dispatch", "SendAllMatch.Dispatch", false, false, nil, nil, "", nil, nil, ""},
+	{"CodeRoute", "route", "SendFirstMatch.Dispatch", "SendFirstMatch.Dispatch", false, false, nil, nil, "", nil, nil, ""},
+	{"CodeHasher", "route", "ConsistentHasher.GetDestinationIndex", "ConsistentHasher.GetDestinationIndex", true, true, nil, nil, "", nil, nil, ""},
+	{"CodeHasher", "route", "ConsistentHashing.Dispatch", "ConsistentHashing.Dispatch", false, true, nil, nil, "", nil, nil, ""},
+	{"CodeTable", "table", "Table.Dispatch", "Table.Dispatch", false, true, nil, nil, "", nil, nil, ""},
+	{"CodeTable", "table", "Table.DispatchAggregate", "Table.DispatchAggregate", false, false, nil, nil, "", nil, nil, ""},
+	{"CodeOrdered", "validate", "Ordered", "validate_Ordered", true, false, []string{"m:MapII", "h:Hasher64"}, []string{"m"}, "", nil, nil, ""},
+	{"CodeKeepSafe", "destination", "keepSafe.Add", "keepSafe.Add", true, false, []string{"recv"}, nil, "", nil, nil, ""},
+	{"CodeKeepSafe", "destination", "keepSafe.GetAll", "keepSafe.GetAll", true, false, []string{"recv"}, nil, "", nil, nil, ""},
+	{"CodeRewriter", "rewriter", "RW.Do", "RW.Do", true, false, nil, nil, "", nil, nil, ""},
+	{"CodeRewriter", "rewriter", "New", "rewriter_New", true, true, nil, nil, "", nil, nil, ""},
+	{"CodeTableOps", "table", "Table.AddRoute", "Table.AddRoute", true, false, []string{"recv"}, nil, "", nil, nil, ""},
+	{"CodeTableOps", "table", "Table.AddBlacklist", "Table.AddBlacklist", true, false, []string{"recv"}, nil, "", nil, nil, ""},
+	{"CodeTableOps", "table", "Table.AddAggregator", "Table.AddAggregator", true, false, []string{"recv"}, nil, "", nil, nil, ""},
+	{"CodeTableOps", "table", "Table.AddRewriter", "Table.AddRewriter", true, false, []string{"recv"}, nil, "", nil, nil, ""},
+	{"CodeTableOps", "table", "Table.DelBlacklist", "Table.DelBlacklist", true, false, []string{"recv"}, nil, "", nil, nil, ""},
+	{"CodeTableOps", "table", "Table.DelRewriter", "Table.DelRewriter", true, false, []string{"recv"}, nil, "", nil, nil, ""},
+	{"CodeTableOps", "table", "Table.DelAggregator", "Table.DelAggregator", false, false, []string{"recv"}, nil, "", nil, nil, ""},
+	{"CodeTableOps", "table", "Table.DelRoute", "Table.DelRoute", false, false, []string{"recv"}, nil, "", nil, nil, ""},
+	{"CodeGuards", "destination", "New", "destination_New_guards", true, false, nil, nil, "", nil, nil, "guards"},
+	{"CodeGuards", "route", "NewGrafanaNet", "NewGrafanaNet_guards", true, false, nil, nil, "", nil, nil, "guards"},
+	{"CodeCfg", "cfg", "InitAggregation", "InitAggregation", false, true, nil, nil, "", nil, nil, ""},
+	{"CodeCfg", "cfg", "InitBlacklist", "InitBlacklist", false, true, nil, nil, "", nil, nil, ""},
+	{"CodeCfg", "cfg", "InitRewrite", "InitRewrite", false, true, nil, nil, "", nil, nil, ""},
+	{"CodeReadAgg", "imperatives", "readAddAgg", "readAddAgg", false, true, []string{"param:s"}, nil, "", nil, []string{"Crng.CodeSpecAgg.T1", "Crng.CodeSpecAgg.T2"}, "(s.toks.length + 2)"},
+	{"CodeReadSmall", "imperatives", "readAddBlack", "readAddBlack", false, true, []string{"param:s"}, nil, "", nil, nil, ""},
+	{"CodeReadSmall", "imperatives", "readAddRewriter", "readAddRewriter", false, true, []string{"param:s"}, nil, "", nil, nil, ""},
+	{"CodeReadSmall", "imperatives", "readRouteOpts", "readRouteOpts", true, false, []string{"param:s"}, nil, "", nil, []string{"Crng.CodeSpecAgg.T3"}, "(s.toks.length + 2)"},
+	{"CodePickleItems", "input", "Pickle.Handle", "Pickle_Handle_items", false, false, nil, nil, "ItemLoop", []string{"p:PickleP", "decoded:List PyVal"}, nil, ""},
+	{"CodeReadDest", "imperatives", "readDestination", "readDestination", true, true, []string{"param:s"}, nil, "", nil, nil, "(s.toks.length + 2)"},
 }
 
 // generated modules that import another generated module (a translated function calling a translated method)
@@ -94,7 +98,7 @@ var leanTypes = map[string]string{
 	"*Matcher": "Matcher", "Matcher": "Matcher", "*Table": "Table", "*SendAllMatch": "SendAllMatch", "*SendFirstMatch": "SendFirstMatch",
 	"*Destination": "Destination", "*baseRoute": "baseRoute", "*ConsistentHasher": "ConsistentHasher", "*ConsistentHashing": "ConsistentHashing", "*Aggregator": "Aggregator", "*keepSafe": "keepSafe", "RW": "RW",
 	"time.Duration": "Int", "matcher.Matcher": "MatcherArgs", "GrafanaNetConfig": "GrafanaNetConfig",
-	"*regexp.Regexp": "Option RegexpI", "Config": "Config",
+	"*regexp.Regexp": "Option RegexpI", "Config": "Config", "[]interface{}": "List PyVal", "*Pickle": "PickleP",
 	"*toki.Scanner": "Scanner", "*toki.Result": "TokV", "table.Interface": "TableI", "*destination.Destination": "DestP",
 	"route.Route": "RouteI", "*matcher.Matcher": "MatcherI", "*aggregator.Aggregator": "AggregatorI", "rewriter.RW": "RewriterI",
 }
@@ -113,7 +117,7 @@ func ignoredCall(s string) bool {
 }
 
 // methods whose call is an event of the trace
-var effectMethods = map[string]bool{"Inc": true, "Add": true, "AddAggregator": true, "AddBlacklist": true, "AddRewriter": true}
+var effectMethods = map[string]bool{"IncNumInvalid": true, "Inc": true, "Add": true, "AddAggregator": true, "AddBlacklist": true, "AddRewriter": true}
 
 // methods of another component that have effects of their own: the callee's trace is spliced in (the interface record
 // gives them the type `... -> Res value`)
@@ -129,7 +133,7 @@ var libFuncs = map[string]string{
 	"bytes.HasPrefix": "Lib.bytes_HasPrefix", "bytes.Contains": "Lib.bytes_Contains", "bytes.IndexByte": "Lib.bytes_IndexByte",
 	"bytes.Fields": "Lib.bytes_Fields", "bytes.Join": "Lib.bytes_Join", "sort.Search": "Lib.sort_Search", "len": "Lib.len", "bytes.Replace": "Lib.bytes_Replace", "strings.SplitN": "Lib.strings_SplitN",
 }
-var identityCalls = map[string]bool{"[]byte": true, "string": true, "int": true, "uint32": true, "int64": true, "uint16": true, "uint": true, "time.Duration": true}
+var identityCalls = map[string]bool{"[]interface{}": true, "[]byte": true, "string": true, "int": true, "uint32": true, "int64": true, "uint16": true, "uint": true, "time.Duration": true}
 
 // methods of a threaded object that yield a value and advance the object: `x := s.Next()` is `(x, s) := s.Next`
 var popMethods = map[string]bool{"Next": true}
@@ -166,6 +170,7 @@ type trCtx struct {
 	nres     int
 	njoin    int
 	namedRes []string
+	varTypes map[string]string // Lean types of variables declared with `var x T`
 	preDefs  *[]string
 	nloop    *int
 	rtFull   string
@@ -268,6 +273,11 @@ func (c *trCtx) expr(e ast.Expr) string {
 	case *ast.StarExpr:
 		return c.expr(x.X)
 	case *ast.TypeAssertExpr:
+		if x.Type != nil {
+			if fn, ok := typeTests[src(x.Type)]; ok {
+				return "(Lib." + fn + " " + par(c.expr(x.X)) + ").1" // single-value assertion (guarded by a type switch in the code)
+			}
+		}
 		return c.expr(x.X)
 	case *ast.UnaryExpr:
 		switch x.Op {
@@ -415,6 +425,15 @@ func (c *trCtx) call(x *ast.CallExpr) string {
 	}
 	if fn == "make" && len(x.Args) == 2 && src(x.Args[0]) == "[]byte" {
 		return "Lib.makeBytes " + par(c.expr(x.Args[1]))
+	}
+	if fn == "fmt.Sprintf" && len(x.Args) == 2 {
+		if bl, ok := x.Args[0].(*ast.BasicLit); ok {
+			names := map[string]string{"\"%d\"": "p.fmt.d", "\"%f\"": "p.fmt.f", "\"%.0f\"": "p.fmt.f0"}
+			if fnm, ok := names[bl.Value]; ok {
+				return fnm + " " + par(c.expr(x.Args[1]))
+			}
+		}
+		fail("fmt.Sprintf with format %s", src(x.Args[0]))
 	}
 	if (fn == "fmt.Errorf" || fn == "errors.New") && len(x.Args) >= 1 {
 		// an error value: its format string (arguments are not rendered)
@@ -624,6 +643,10 @@ func assignOnly(list []ast.Stmt) bool {
 
 func (c *trCtx) clone() *trCtx {
 	d := *c
+	d.varTypes = map[string]string{}
+	for k, v := range c.varTypes {
+		d.varTypes[k] = v
+	}
 	d.declared = map[string]bool{}
 	for k := range c.declared {
 		d.declared[k] = true
@@ -768,6 +791,7 @@ func (c *trCtx) stmts(list []ast.Stmt, ind string) string {
 					if !ok {
 						fail("var of type %s", src(vs.Type))
 					}
+					c.varTypes[n.Name] = t
 					out += "let " + lid(n.Name) + " : " + t + " := default" + nl
 				}
 				c.declared[n.Name] = true
@@ -839,7 +863,23 @@ func (c *trCtx) stmts(list []ast.Stmt, ind string) string {
 			return out + c.stmts(rest, ind)
 		}
 		if len(x.Rhs) == 1 {
-			rhs := c.expr(x.Rhs[0]) // before the left-hand names come into scope (`matcher, err := matcher.New(...)`)
+			// `v, ok := x.(T)`
+		if ta, isTA := x.Rhs[0].(*ast.TypeAssertExpr); isTA && len(x.Lhs) == 2 && ta.Type != nil {
+			fn, ok := typeTests[src(ta.Type)]
+			if !ok {
+				fail("type assertion to %s", src(ta.Type))
+			}
+			var names []string
+			for _, l := range x.Lhs {
+				id := l.(*ast.Ident)
+				if id.Name != "_" {
+					c.declared[id.Name] = true
+				}
+				names = append(names, lid(id.Name))
+			}
+			return "let " + tuple(names) + " := Lib." + fn + " " + par(c.expr(ta.X)) + nl + c.stmts(rest, ind)
+		}
+		rhs := c.expr(x.Rhs[0]) // before the left-hand names come into scope (`matcher, err := matcher.New(...)`)
 			var names []string
 			for _, l := range x.Lhs {
 				id, ok := l.(*ast.Ident)
@@ -959,6 +999,10 @@ func (c *trCtx) stmts(list []ast.Stmt, ind string) string {
 		return c.forStmt(x, rest, ind)
 	case *ast.SwitchStmt:
 		return c.stmts(append([]ast.Stmt{switchToIf(x)}, rest...), ind)
+	case *ast.LabeledStmt:
+		return c.stmts(append([]ast.Stmt{x.Stmt}, rest...), ind)
+	case *ast.TypeSwitchStmt:
+		return c.typeSwitch(x, rest, ind)
 	}
 	fail("statement %T (%s)", s, firstLine(src(s)))
 	return ""
@@ -995,6 +1039,127 @@ func checkNoShadow(c *trCtx, block, rest []ast.Stmt) {
 			}
 		}
 	}
+}
+
+// dynamic types the code tests for -> the constructor test of the value domain (CodePrelude `PyVal`)
+var typeTests = map[string]string{"string": "asString", "ogorek.Tuple": "asTuple", "[]interface{}": "asList"}
+var typeCases = map[string]string{"string": "PyVal.str", "ogorek.Tuple": "PyVal.tuple", "[]interface{}": "PyVal.list",
+	"uint8": "PyVal.int", "int64": "PyVal.int", "(*big.Int)": "PyVal.big", "float64": "PyVal.float"}
+
+// typeSwitch translates `switch v := x.(type) { case A, B: …; default: … }` into a match on the value's constructor. Types that
+// the value domain identifies (all sized integers are `int`, both float widths `float`) must appear together in one case.
+// When what follows the switch is not trivial, it is bound once as a function of the variables the cases assign (their
+// types are known from their `var` declarations).
+func (c *trCtx) typeSwitch(x *ast.TypeSwitchStmt, rest []ast.Stmt, ind string) string {
+	nl := "\n" + ind
+	var subject ast.Expr
+	bind := "_"
+	switch a := x.Assign.(type) {
+	case *ast.AssignStmt:
+		subject = a.Rhs[0].(*ast.TypeAssertExpr).X
+		bind = lid(a.Lhs[0].(*ast.Ident).Name)
+	case *ast.ExprStmt:
+		subject = a.X.(*ast.TypeAssertExpr).X
+	}
+	// variables assigned in the cases and used afterwards: parameters of the join point
+	as := map[string]bool{}
+	allTerminate := true
+	for _, cc := range x.Body.List {
+		cl := cc.(*ast.CaseClause)
+		assignedWithPops(cl.Body, as)
+		if !terminates(cl.Body) {
+			allTerminate = false
+		}
+	}
+	var live []string
+	for n := range as {
+		if c.declared[n] && mentions(rest, n) {
+			live = append(live, n)
+		}
+	}
+	sort.Strings(live)
+	k := ""
+	pre := ""
+	callK := ""
+	if len(rest) > 0 && !allTerminate {
+		var ps, as2 []string
+		for _, n := range live {
+			t, ok := c.varTypes[n]
+			if !ok {
+				fail("type switch assigns %s whose type is not declared with var", n)
+			}
+			ps = append(ps, "("+lid(n)+" : "+t+")")
+			as2 = append(as2, lid(n))
+		}
+		c.njoin++
+		k = fmt.Sprintf("k%d_", c.njoin)
+		cr := c.clone()
+		body := cr.stmts(rest, ind+"  ")
+		c.njoin = cr.njoin
+		if len(ps) == 0 {
+			ps = []string{"(_ : Unit)"}
+			callK = k + " ()"
+		} else {
+			callK = k + " " + strings.Join(as2, " ")
+		}
+		pre = "let " + k + " := fun " + strings.Join(ps, " ") + " =>" + nl + "  " + body + nl
+		rest = nil
+	}
+	out := pre + "match " + c.expr(subject) + " with"
+	hasDefault := false
+	for _, cc := range x.Body.List {
+		cl := cc.(*ast.CaseClause)
+		cb := c.clone()
+		cb.njoin = c.njoin
+		if callK != "" {
+			cb.fall = callK
+		}
+		if bind != "_" {
+			cb.declared[x.Assign.(*ast.AssignStmt).Lhs[0].(*ast.Ident).Name] = true
+		}
+		if cl.List == nil {
+			hasDefault = true
+			out += nl + "| _ =>" + nl + "  " + cb.stmts(append(append([]ast.Stmt{}, cl.Body...), rest...), ind+"  ")
+			continue
+		}
+		seen := map[string]bool{}
+		var ctors []string
+		for _, t := range cl.List {
+			ctor, ok := typeCases[src(t)]
+			if !ok {
+				// the other sized integers and float32 are identified with int64 / float64
+				switch src(t) {
+				case "uint16", "uint32", "uint64", "int8", "int16", "int32":
+					ctor = "PyVal.int"
+				case "float32":
+					ctor = "PyVal.float"
+				default:
+					fail("type switch case %s", src(t))
+				}
+			}
+			if !seen[ctor] {
+				seen[ctor] = true
+				ctors = append(ctors, ctor)
+			}
+		}
+		var pats []string
+		for _, ct := range ctors {
+			b := bind
+			if len(ctors) > 1 {
+				b = "_" // Go binds the interface value itself when a case lists several types
+			}
+			pats = append(pats, "| "+ct+" "+b)
+		}
+		out += nl + strings.Join(pats, " ") + " =>" + nl + "  " + cb.stmts(append(append([]ast.Stmt{}, cl.Body...), rest...), ind+"  ")
+	}
+	if !hasDefault {
+		fall := c.fall
+		if callK != "" {
+			fall = callK
+		}
+		out += nl + "| _ =>" + nl + "  " + fall
+	}
+	return out
 }
 
 // switchToIf rewrites `switch tag { case a, b: S; default: D }` (no fallthrough) into an if / else-if chain. A `break` that
@@ -1386,7 +1551,7 @@ func translateAll(pkgs map[string]*pkgInfo) {
 func translateFunc(f trFunc, fd *ast.FuncDecl, pkgFns map[string]string) string {
 	var pre []string
 	nl0 := 0
-	c := &trCtx{f: f, pkgFns: pkgFns, declared: map[string]bool{}, preDefs: &pre, nloop: &nl0}
+	c := &trCtx{f: f, pkgFns: pkgFns, declared: map[string]bool{}, varTypes: map[string]string{}, preDefs: &pre, nloop: &nl0}
 	var params []string
 	if f.env {
 		params = append(params, "(E : Env)")
@@ -1412,7 +1577,14 @@ func translateFunc(f trFunc, fd *ast.FuncDecl, pkgFns map[string]string) string 
 		stateNames = append(stateNames, lid(kv[0]))
 		stateTypes = append(stateTypes, kv[1])
 	}
-	if fd.Recv != nil {
+	if f.extract != "" {
+		for _, ep := range f.exParams {
+			kv := strings.SplitN(ep, ":", 2)
+			params = append(params, "("+lid(kv[0])+" : "+kv[1]+")")
+			c.declared[kv[0]] = true
+		}
+	}
+	if fd.Recv != nil && f.extract == "" {
 		addParam(fd.Recv.List[0].Names, fd.Recv.List[0].Type)
 		for _, st := range f.state {
 			if st == "recv" {
@@ -1422,6 +1594,9 @@ func translateFunc(f trFunc, fd *ast.FuncDecl, pkgFns map[string]string) string 
 		}
 	}
 	for _, p := range fd.Type.Params.List {
+		if f.extract != "" {
+			break
+		}
 		addParam(p.Names, p.Type)
 		for _, st := range f.state {
 			for _, n := range p.Names {
@@ -1434,7 +1609,7 @@ func translateFunc(f trFunc, fd *ast.FuncDecl, pkgFns map[string]string) string 
 		}
 	}
 	var rts []string
-	if fd.Type.Results != nil {
+	if fd.Type.Results != nil && f.extract == "" {
 		for _, r := range fd.Type.Results.List {
 			lt, ok := leanTypes[src(r.Type)]
 			if !ok && f.fuel == "guards" {
@@ -1455,7 +1630,7 @@ func translateFunc(f trFunc, fd *ast.FuncDecl, pkgFns map[string]string) string 
 	// named results are variables initialised to their zero values; a bare `return` yields their current values
 	var namedRes []string
 	namedInit := ""
-	if fd.Type.Results != nil {
+	if fd.Type.Results != nil && f.extract == "" {
 		for _, r := range fd.Type.Results.List {
 			for _, n := range r.Names {
 				if n.Name == "_" {
@@ -1529,6 +1704,19 @@ func translateFunc(f trFunc, fd *ast.FuncDecl, pkgFns map[string]string) string 
 		c.rtFull = rt
 	}
 	stmtsList := fd.Body.List
+	if f.extract != "" {
+		var found ast.Stmt
+		ast.Inspect(fd.Body, func(n ast.Node) bool {
+			if ls, ok := n.(*ast.LabeledStmt); ok && ls.Label.Name == f.extract {
+				found = ls.Stmt
+			}
+			return true
+		})
+		if found == nil {
+			fail("no statement labelled %s", f.extract)
+		}
+		stmtsList = []ast.Stmt{found}
+	}
 	if f.fuel == "guards" {
 		// the leading guards only; the value is the error alone
 		var gs []ast.Stmt
